@@ -230,11 +230,21 @@ package trend
 //@ step[C01] "as-implemented" forall k :: 0 <= k && k < len(result) ==> result[k] == emaS(c, apo.FastPeriod, 2 / real(apo.FastPeriod + 1), k) - emaS(c, apo.SlowPeriod, 2 / real(apo.SlowPeriod + 1), k)
 //@ ensures[C01] "documented" forall k :: 0 <= k && k < len(result) ==> result[k] == apoS(c, apo.FastPeriod, apo.SlowPeriod)[k]
 
+// Single EMA = EMA(9, Highs - Lows), Double EMA = EMA(9, Single EMA), Ratio = Single EMA / Double EMA (same bar),
+// Mass Index = SUM(Ratio, 25)
+//@ stream miRatioS(h stream, l stream, P1 int, m1 real, P2 int, m2 real)[j] = emaSt(subS(h, l), P1, m1)[j + P2 - 1] / emaS(emaSt(subS(h, l), P1, m1), P2, m2, j)
 //@ func MassIndex.Compute
 //@ requires m.Ema1.Period >= 1 && m.Ema2.Period >= 1 && m.MovingSum.Period >= 1 && consumed(highs) == 0 && consumed(lows) == 0 && len(highs) == len(lows)
 //@ ensures[C02] len(result) == max(0, len(highs) - (m.IdlePeriod()))
 //@ ensures[C03] consumed(highs) == len(highs) && consumed(lows) == len(lows) && closed(result)
 //@ ensures[C04] forall kk :: 0 <= kk && kk < len(result) ==> hor(result, kk) <= max(hor(highs, kk + (m.IdlePeriod())), hor(lows, kk + (m.IdlePeriod())))
+//@ step[C01] "range" forall j :: 0 <= j && j < len(highs) ==> res(Subtract, 0)[j] == subS(highs, lows)[j]
+//@ use ema_cong(res(Subtract, 0), subS(highs, lows), m.Ema1.Period, emam(m.Ema1), _)
+//@ step[C01] "single" forall j :: 0 <= j && j < len(ema1[0]) ==> ema1[0][j] == emaSt(subS(highs, lows), m.Ema1.Period, emam(m.Ema1))[j] && res(Duplicate, 0)[1][j] == emaSt(subS(highs, lows), m.Ema1.Period, emam(m.Ema1))[j]
+//@ use ema_cong(ema1[0], emaSt(subS(highs, lows), m.Ema1.Period, emam(m.Ema1)), m.Ema2.Period, emam(m.Ema2), _)
+//@ step[C01] "ratio" forall j :: 0 <= j && j < len(ratio) ==> ratio[j] == miRatioS(highs, lows, m.Ema1.Period, emam(m.Ema1), m.Ema2.Period, emam(m.Ema2))[j]
+//@ use psum_cong(ratio, miRatioS(highs, lows, m.Ema1.Period, emam(m.Ema1), m.Ema2.Period, emam(m.Ema2)), _)
+//@ ensures[C01] "documented" forall k :: 0 <= k && k < len(result) ==> result[k] == psum(miRatioS(highs, lows, m.Ema1.Period, emam(m.Ema1), m.Ema2.Period, emam(m.Ema2)), k + m.MovingSum.Period) - psum(miRatioS(highs, lows, m.Ema1.Period, emam(m.Ema1), m.Ema2.Period, emam(m.Ema2)), k)
 
 //@ func Mls.Compute
 //@ requires m.Sum.Period >= 1 && consumed(x) == 0 && consumed(y) == 0 && len(x) == len(y)
@@ -249,11 +259,23 @@ package trend
 //@ ensures[C03] consumed(x) == len(x) && consumed(y) == len(y) && closed(result)
 //@ ensures[C04] forall kk :: 0 <= kk && kk < len(result) ==> hor(result, kk) <= max(hor(x, kk + (m.IdlePeriod())), hor(y, kk + (m.IdlePeriod())))
 
+// PCDS = Ema(13, Ema(25, (Current - Prior))), APCDS = Ema(13, Ema(25, Abs(Current - Prior))), TSI = (PCDS / APCDS) * 100
+//@ stream pcS(c stream)[j] = c[j+1] - c[j]
+//@ stream apcS(c stream)[j] = abs(c[j+1] - c[j])
+//@ stream tsiS(c stream, P1 int, m1 real, P2 int, m2 real)[k] = emaS(emaSt(pcS(c), P2, m2), P1, m1, k) / emaS(emaSt(apcS(c), P2, m2), P1, m1, k) * 100
 //@ func Tsi.Compute
 //@ requires consumed(closings) == 0
 //@ ensures[C02] len(result) == max(0, len(closings) - (t.IdlePeriod()))
 //@ ensures[C03] consumed(closings) == len(closings) && closed(result)
 //@ ensures[C04] forall kk :: 0 <= kk && kk < len(result) ==> hor(result, kk) <= hor(closings, kk + (t.IdlePeriod()))
+//@ import "ema-value"
+//@ step[C01] "changes" forall j :: 0 <= j && j < len(closings) - 1 ==> pcsSplice[0][j] == pcS(closings)[j] && res(Abs, 0)[j] == apcS(closings)[j]
+//@ use[cond] ema_cong(pcsSplice[0], pcS(closings), as(t.SecondSmoothing, "trend.Ema").Period, emam(as(t.SecondSmoothing, "trend.Ema")), _)
+//@ use[cond] ema_cong(res(Abs, 0), apcS(closings), as(t.SecondSmoothing, "trend.Ema").Period, emam(as(t.SecondSmoothing, "trend.Ema")), _)
+//@ step[C01] "inner" istype(t.FirstSmoothing, "trend.Ema") && istype(t.SecondSmoothing, "trend.Ema") && as(t.FirstSmoothing, "trend.Ema").Period >= 1 && as(t.SecondSmoothing, "trend.Ema").Period >= 1 ==> (forall j :: 0 <= j && j < len(res(Ma_Compute, 0)) ==> res(Ma_Compute, 0)[j] == emaSt(pcS(closings), as(t.SecondSmoothing, "trend.Ema").Period, emam(as(t.SecondSmoothing, "trend.Ema")))[j] && res(Ma_Compute, 2)[j] == emaSt(apcS(closings), as(t.SecondSmoothing, "trend.Ema").Period, emam(as(t.SecondSmoothing, "trend.Ema")))[j])
+//@ use[cond] ema_cong(res(Ma_Compute, 0), emaSt(pcS(closings), as(t.SecondSmoothing, "trend.Ema").Period, emam(as(t.SecondSmoothing, "trend.Ema"))), as(t.FirstSmoothing, "trend.Ema").Period, emam(as(t.FirstSmoothing, "trend.Ema")), _)
+//@ use[cond] ema_cong(res(Ma_Compute, 2), emaSt(apcS(closings), as(t.SecondSmoothing, "trend.Ema").Period, emam(as(t.SecondSmoothing, "trend.Ema"))), as(t.FirstSmoothing, "trend.Ema").Period, emam(as(t.FirstSmoothing, "trend.Ema")), _)
+//@ ensures[C01] "documented-ema" istype(t.FirstSmoothing, "trend.Ema") && istype(t.SecondSmoothing, "trend.Ema") && as(t.FirstSmoothing, "trend.Ema").Period >= 1 && as(t.SecondSmoothing, "trend.Ema").Period >= 1 ==> (forall k :: 0 <= k && k < len(result) ==> result[k] == tsiS(closings, as(t.FirstSmoothing, "trend.Ema").Period, emam(as(t.FirstSmoothing, "trend.Ema")), as(t.SecondSmoothing, "trend.Ema").Period, emam(as(t.SecondSmoothing, "trend.Ema")))[k])
 
 //@ func TypicalPrice.Compute
 //@ requires consumed(high) == 0 && consumed(low) == 0 && consumed(closing) == 0 && len(high) == len(low) && len(high) == len(closing)
@@ -317,11 +339,24 @@ package trend
 //@ ensures[C01] forall k :: 0 <= k && k < len(result) ==> result[k] == (closing[k] - opening[k]) / (high[k] - low[k])
 //@ ensures[C15] "range" forall k :: 0 <= k && k < len(result) && low[k] <= opening[k] && opening[k] <= high[k] && low[k] <= closing[k] && closing[k] <= high[k] && low[k] < high[k] ==> 0 - 1 <= result[k] && result[k] <= 1
 
+// Moving Average = Sma(Period, Typical Price); Mean Deviation = Sma(Period, Abs(Typical Price - Moving Average));
+// CCI = (Typical Price - Moving Average) / (0.015 * Mean Deviation), all at the same bar
+//@ stream tpS(h stream, l stream, c stream)[j] = (h[j] + l[j] + c[j]) / 3
+//@ stream cciDevS(h stream, l stream, c stream, P int)[j] = abs(tpS(h, l, c)[j + P - 1] - smaS(tpS(h, l, c), P)[j])
+//@ stream cciS(h stream, l stream, c stream, P int)[k] = (tpS(h, l, c)[k + 2 * P - 2] - smaS(tpS(h, l, c), P)[k + P - 1]) / (smaS(cciDevS(h, l, c, P), P)[k] * 0.015)
 //@ func Cci.Compute
 //@ requires c.Period >= 1 && consumed(highs) == 0 && consumed(lows) == 0 && consumed(closings) == 0 && len(highs) == len(lows) && len(highs) == len(closings)
 //@ ensures[C02] len(result) == max(0, len(highs) - (c.IdlePeriod()))
 //@ ensures[C03] consumed(highs) == len(highs) && consumed(lows) == len(lows) && consumed(closings) == len(closings) && closed(result)
 //@ ensures[C04] forall kk :: 0 <= kk && kk < len(result) ==> hor(result, kk) <= max(hor(highs, kk + (c.IdlePeriod())), max(hor(lows, kk + (c.IdlePeriod())), hor(closings, kk + (c.IdlePeriod()))))
+//@ step[C01] "typical" forall j :: 0 <= j && j < len(highs) ==> res(Duplicate, 0)[0][j] == tpS(highs, lows, closings)[j] && res(Duplicate, 0)[1][j] == tpS(highs, lows, closings)[j] && res(Duplicate, 0)[2][j] == tpS(highs, lows, closings)[j]
+//@ use psum_cong(res(Duplicate, 0)[0], tpS(highs, lows, closings), _)
+//@ step[C01] "average" forall j :: 0 <= j && j < len(mas[0]) ==> mas[0][j] == smaS(tpS(highs, lows, closings), c.Period)[j] && res(Duplicate, 1)[1][j] == smaS(tpS(highs, lows, closings), c.Period)[j]
+//@ step[C01] "deviation" forall j :: 0 <= j && j < len(res(Abs, 0)) ==> res(Abs, 0)[j] == cciDevS(highs, lows, closings, c.Period)[j]
+//@ use psum_cong(res(Abs, 0), cciDevS(highs, lows, closings, c.Period), _)
+//@ step[C01] "mean-deviation" forall k :: 0 <= k && k < len(md) ==> md[k] == smaS(cciDevS(highs, lows, closings, c.Period), c.Period)[k]
+//@ step[C01] "aligned" forall k :: 0 <= k && k < len(result) ==> tps[2][k] == tpS(highs, lows, closings)[k + 2 * c.Period - 2] && mas[1][k] == smaS(tpS(highs, lows, closings), c.Period)[k + c.Period - 1]
+//@ ensures[C01] "documented" forall k :: 0 <= k && k < len(result) ==> result[k] == cciS(highs, lows, closings, c.Period)[k]
 
 //@ func Envelope.Compute
 //@ requires consumed(closings) == 0
@@ -336,6 +371,8 @@ package trend
 //@ ensures[C01] "middle-ema" istype(e.Ma, "trend.Ema") ==> (forall k :: 0 <= k && k < len(result1) ==> result1[k] == emaS(closings, as(e.Ma, "trend.Ema").Period, as(e.Ma, "trend.Ema").Smoothing / (as(e.Ma, "trend.Ema").Period + 1), k))
 //@ ensures[C15] "ordered" posma(e.Ma) && e.Percentage >= 0 && (forall j :: 0 <= j && j < len(closings) ==> closings[j] >= 0) ==> (forall k :: 0 <= k && k < len(result1) ==> result0[k] >= result1[k] && result1[k] >= result2[k])
 
+// RSV = ((Closing - Min(Low, rPeriod)) / (Max(High, rPeriod) - Min(Low, rPeriod))) * 100 (= stochKS),
+// K = Sma(RSV, kPeriod), D = Sma(K, dPeriod), J = (3 * K) - (2 * D), all at the same bar
 //@ func Kdj.Compute
 //@ requires kdj.MovingMax.Period >= 1 && kdj.MovingMin.Period == kdj.MovingMax.Period && kdj.Sma1.Period >= 1 && kdj.Sma2.Period >= 1 && consumed(high) == 0 && consumed(low) == 0 && consumed(closing) == 0 && len(high) == len(low) && len(high) == len(closing)
 //@ ensures[C02] len(result0) == max(0, len(high) - (kdj.IdlePeriod())) && len(result1) == max(0, len(high) - (kdj.IdlePeriod())) && len(result2) == max(0, len(high) - (kdj.IdlePeriod()))
@@ -343,6 +380,12 @@ package trend
 //@ ensures[C04] forall kk :: 0 <= kk && kk < len(result0) ==> hor(result0, kk) <= max(hor(high, kk + (kdj.IdlePeriod())), max(hor(low, kk + (kdj.IdlePeriod())), hor(closing, kk + (kdj.IdlePeriod()))))
 //@ ensures[C04] forall kk :: 0 <= kk && kk < len(result1) ==> hor(result1, kk) <= max(hor(high, kk + (kdj.IdlePeriod())), max(hor(low, kk + (kdj.IdlePeriod())), hor(closing, kk + (kdj.IdlePeriod()))))
 //@ ensures[C04] forall kk :: 0 <= kk && kk < len(result2) ==> hor(result2, kk) <= max(hor(high, kk + (kdj.IdlePeriod())), max(hor(low, kk + (kdj.IdlePeriod())), hor(closing, kk + (kdj.IdlePeriod()))))
+//@ step[C01] "rsv" forall j :: 0 <= j && j < len(rsv) ==> rsv[j] == stochKS(high, low, closing, kdj.MovingMax.Period)[j]
+//@ use psum_cong(rsv, stochKS(high, low, closing, kdj.MovingMax.Period), _)
+//@ step[C01] "k" forall j :: 0 <= j && j < len(ks[0]) ==> ks[0][j] == smaS(stochKS(high, low, closing, kdj.MovingMax.Period), kdj.Sma1.Period)[j] && res(Duplicate, 1)[1][j] == smaS(stochKS(high, low, closing, kdj.MovingMax.Period), kdj.Sma1.Period)[j] && res(Duplicate, 1)[2][j] == smaS(stochKS(high, low, closing, kdj.MovingMax.Period), kdj.Sma1.Period)[j]
+//@ use psum_cong(ks[0], smaS(stochKS(high, low, closing, kdj.MovingMax.Period), kdj.Sma1.Period), _)
+//@ step[C01] "d" forall j :: 0 <= j && j < len(ds[0]) ==> ds[0][j] == smaS(smaS(stochKS(high, low, closing, kdj.MovingMax.Period), kdj.Sma1.Period), kdj.Sma2.Period)[j] && ds[1][j] == smaS(smaS(stochKS(high, low, closing, kdj.MovingMax.Period), kdj.Sma1.Period), kdj.Sma2.Period)[j]
+//@ ensures[C01] "documented" forall k :: 0 <= k && k < len(result0) ==> result0[k] == smaS(stochKS(high, low, closing, kdj.MovingMax.Period), kdj.Sma1.Period)[k + kdj.Sma2.Period - 1] && result1[k] == smaS(smaS(stochKS(high, low, closing, kdj.MovingMax.Period), kdj.Sma1.Period), kdj.Sma2.Period)[k] && result2[k] == 3 * smaS(stochKS(high, low, closing, kdj.MovingMax.Period), kdj.Sma1.Period)[k + kdj.Sma2.Period - 1] - 2 * smaS(smaS(stochKS(high, low, closing, kdj.MovingMax.Period), kdj.Sma1.Period), kdj.Sma2.Period)[k]
 
 //@ func Kama.Compute
 //@ requires k.ErPeriod >= 1 && consumed(closings) == 0
